@@ -64,7 +64,9 @@ def run(pid, tier, seed):
             with open(os.path.join(d3, n_), "wb") as f:
                 f.write(blob)
         sets.append((d3, ["a.log", "b.log", "junk.log", "long.log"], []))
-        kinds_of = {0: {0: "text", 1: "text", 2: "record", 3: "event"}, 1: {0: "text", 1: "entry"}, 2: {0: "text", 1: "text", 2: "text", 3: "text"}}
+        def kind_of(name):
+            return "event" if name.endswith(".evtx") else "entry" if name.endswith(".journal") else "record" if "tmp" in name else "text"
+        kinds_of = {si: {w: kind_of(n_) for w, n_ in enumerate(files)} for si, (_d, files, _w) in enumerate(sets)}
         optsets = [[], ["-n"], ["-p", "-w", "-u"], ["-n", "-u", "-d", "%H:%M:%S%.6f", "--prepend-separator=|"], ["--separator=--\\n"],
                    ["-n", "-l", "--separator=\\t", "--color", "always"], ["-w", "-n", "-z", "+05:30", "--separator=\\n"]]
         windows = {0: [[], ["-a", "2023-03-10T03:49:43.561000+00:00"], ["-a", "2023-03-10T03:49:43.560+00:00", "-b", "2023-03-10T03:49:43.566+00:00"]],
